@@ -53,13 +53,17 @@ def _is_buf(node):
     return isinstance(node, ast.Attribute) and U(node) == BUF
 
 
-def shrink_kind(stmt):
-    """Assign to self._buffer of b'' or a slice of self._buffer"""
+def shrink_kind(stmt, target=None, sub=None):
+    """Assign to self._buffer of b'' or a slice of self._buffer (`sub`: the assigned value with locals substituted,
+    so that a local alias of the buffer counts as the buffer)"""
     if not isinstance(stmt, ast.Assign):
         return None
-    if not any(_is_buf(t) for t in stmt.targets):
+    if target is not None:
+        if not _is_buf(target):
+            return None
+    elif not any(_is_buf(t) for t in stmt.targets):
         return None
-    v = stmt.value
+    v = sub if sub is not None else stmt.value
     if isinstance(v, ast.Constant) and v.value in (b'', ''):
         return 'clear'
     if isinstance(v, ast.Subscript) and _is_buf(v.value) and isinstance(v.slice, ast.Slice):
@@ -115,7 +119,7 @@ def framer_paths(cx, kind, may_raise=None, consts=None, default_kwargs=False):
                 if isinstance(sub.func, ast.Name) and sub.func.id == cbname:
                     fp.deliveries.append(i)
             elif k == 'assign':
-                sk = shrink_kind(ev.node)
+                sk = shrink_kind(ev.node, ev.a, getattr(ev, '_sub', None))
                 if sk in ('clear', 'slice'):
                     fp.shrinks.append((i, sk))
             elif k == 'cond':
